@@ -2,6 +2,8 @@
 // and loaded from source with gengo's own loader (go/types view).
 package fixt
 
+import "verif/harness/internal/fixt2"
+
 // A is a plain struct.
 type A struct {
 	N int
@@ -49,6 +51,22 @@ type Outer struct {
 	U8    uint8
 	I64   int64
 	Named AS
+}
+
+// Cross is a struct whose fields have types of ANOTHER package than its own.
+type Cross struct {
+	Name string
+	B    fixt2.B
+	PB   *fixt2.B
+	SB   []fixt2.B
+	MB   map[string]fixt2.B
+	BS   fixt2.BS
+}
+
+// CrossArr has an array (never "empty") of the other package's struct.
+type CrossArr struct {
+	Name string
+	AB   [1]fixt2.B
 }
 
 // Instantiations that exist at run time (reflect cannot instantiate generics).
